@@ -40,7 +40,7 @@ def run_driver(ctx, cases, timeout=5, chunk=None, tag="job"):
         return {}
     lib = os.path.join(build.libdir(), "libinterrogatedb.so")
     wl = writer_lib()
-    n = chunk or max(1, (len(cases) + NCPU * 2 - 1) // (NCPU * 2))
+    n = chunk or min(2000, max(1, (len(cases) + NCPU * 2 - 1) // (NCPU * 2)))
     slices = [cases[i:i + n] for i in range(0, len(cases), n)]
 
     def one(ix_sl):
@@ -51,7 +51,7 @@ def run_driver(ctx, cases, timeout=5, chunk=None, tag="job"):
         env = dict(os.environ, IDB_DRIVER_TMP=ctx.tmp)
         p = subprocess.run([sys.executable, os.path.join(HARNESS, "idb_driver.py"), lib, header_path(), jp, rp, wl],
                            stdout=subprocess.PIPE, stderr=subprocess.PIPE, text=True, env=env,
-                           timeout=max(600, timeout * 40 * len(sl)))
+                           timeout=min(7200, max(600, timeout * 40 * len(sl))))
         if p.returncode != 0 or not os.path.exists(rp):
             raise MachineryError("idb_driver failed (rc %s): %s" % (p.returncode, p.stderr[-1500:]))
         res = json.load(open(rp))["results"]
